@@ -121,13 +121,21 @@ template <class F> static ChildOut run_child(F f) {
   close(pfd[1]); char b[512]; ssize_t r; while ((r = read(pfd[0], b, sizeof b)) > 0) o.err.append(b, (size_t)r); close(pfd[0]); waitpid(pid, &o.st, 0); return o; }
 static void fixed_case(unsigned k, CaseInfo& ci) {
   if (k == 0) {
-    ci.desc = "mpz_init2(z, 2^37), mpz_realloc2(z, 2^37), _mpz_realloc(z, 2^31) on lazily mapped memory: abort with 'overflow in mpz type' or a well-formed object";
+    ci.desc = "mpz_init2(z, 2^37), mpz_realloc2(z, 2^37), _mpz_realloc(z, 2^31), mpf_init2 / mpf_set_prec / mpf_set_prec_raw / mpf_set_default_prec with 2^38 bits on lazily mapped memory: overflow abort or a well-formed object";
     static const char* nm[3] = {"mpz_init2(z, 2^37)", "mpz_realloc2(z, 2^37)", "_mpz_realloc(z, 2^31)"};
     for (int which = 0; which < 3; which++) {
       ChildOut o = run_child([&]() -> int { mp_set_memory_functions(lazy_alloc, lazy_realloc, lazy_free); mpz_t z; const mp_bitcnt_t bits = (mp_bitcnt_t)1 << 37;
         if (which == 0) mpz_init2(z, bits); else { mpz_init(z); if (which == 1) mpz_realloc2(z, bits); else _mpz_realloc(z, (mp_size_t)1 << 31); }
         if (z->_mp_d == nullptr) return 8; return (long)z->_mp_alloc >= ((long)1 << 31) && z->_mp_size == 0 ? 0 : 7; });
       REQUIRE(o.clean_abort() || o.exited(0) || o.exited(8), "%s returned normally with an ill-formed object (_mp_alloc cannot hold 2^31: it is negative), or died otherwise (wait status 0x%x, stderr \"%.120s\"); acceptable: the overflow abort, or a well-formed object", nm[which], o.st, o.err.c_str());
+    }
+    // the same for mpf: a precision of 2^32 limbs and more does not fit the int field _mp_prec
+    static const char* fm[4] = {"mpf_init2(f, 2^38)", "mpf_set_prec(f, 2^38)", "mpf_set_prec_raw(f, 2^38)", "mpf_set_default_prec(2^38); mpf_init(f)"};
+    for (int which = 0; which < 4; which++) {
+      ChildOut o = run_child([&]() -> int { mp_set_memory_functions(lazy_alloc, lazy_realloc, lazy_free); mpf_t f; const mp_bitcnt_t bits = (mp_bitcnt_t)1 << 38;
+        if (which == 0) mpf_init2(f, bits); else if (which == 3) { mpf_set_default_prec(bits); mpf_init(f); } else { mpf_init2(f, 128); if (which == 1) mpf_set_prec(f, bits); else mpf_set_prec_raw(f, bits); }
+        if (f->_mp_d == nullptr) return 8; return (long)f->_mp_prec >= (long)(bits / 64) ? 0 : 7; });
+      REQUIRE(o.clean_abort() || o.exited(0) || o.exited(8), "%s returned normally with _mp_prec too small for the request (the int field cannot hold 2^32 limbs), or died otherwise (wait status 0x%x, stderr \"%.120s\"); acceptable: the overflow abort, or a precision at least as large as requested", fm[which], o.st, o.err.c_str());
     }
   }
   if (k == 1) {
